@@ -92,3 +92,18 @@ Proof.
   - rewrite EQ. unfold emitted. rewrite map_map. reflexivity.
   - apply faithful_links; assumption.
 Qed.
+
+(* a symlink target is an opaque string for the model: the entry of the walk, the
+   header handed to the tar writer and the entry as written carry it verbatim;
+   goextract pins that walkFS hands Readlink's result to tar.FileInfoHeader *)
+Lemma link_target_verbatim :
+  c06_link_target_verbatim = true /\
+  forall ev p m tgt,
+    let e := file_entry ev p m (LSym tgt) None in
+    e_kind e = KSym /\ e_link e = tgt /\ str (h_link (hdr_of_entry e)) = tgt /\ e_link (tar_written e) = tgt /\
+    payload_of [] (tar_written e) = Ok (File (meta_of (tar_written e)) (LSym tgt) None).
+Proof.
+  split; [reflexivity|]. intros ev p m tgt. cbv zeta.
+  unfold file_entry, mk_entry, hdr_of_entry, tar_written. cbn [e_kind e_link h_link].
+  rewrite str_lit. repeat split.
+Qed.
